@@ -61,7 +61,7 @@ static Janet sp_constv[SP_NF];
 static int sp_kind[SP_NF];              /* run-time kind of the form's value */
 static int32_t sp_slot[SP_NF];          /* register holding the value of a non-constant form */
 static uint32_t sp_slotflags[SP_NF];
-static int sp_makes_closure[SP_NF];
+static int sp_makes_closure[SP_NF], sp_spliced[SP_NF];
 /* ghost log of the compilation */
 static int sp_calls[SP_NF], sp_seq[SP_NF], sp_ncalls;
 static uint32_t sp_optflags[SP_NF];
@@ -91,6 +91,8 @@ void *sp_grow_stub(void *v, int32_t increment, int32_t itemsize) {
     if (v == (void *)0 && itemsize == (int32_t) sizeof(SymPair)) { sp_symmem.cap = 4; sp_symmem.cnt = 0; return sp_symmem.data; }
     __CPROVER_assert(0, "harness: the preallocated vectors suffice"); __CPROVER_assume(0); return v;
 }
+/* janet_equals on the constants this harness uses (immediates, one array): identity */
+int sp_equals_stub(Janet x, Janet y) { return x.type == y.type && x.as.u64 == y.as.u64; }
 void sp_lintf_stub(JanetCompiler *c, JanetCompileLintLevel level, const char *format, ...) {}
 void sp_cerror_stub(JanetCompiler *c, const char *m) { sp_errors++; c->result.status = JANET_COMPILE_ERROR; }
 void sp_error_stub(JanetCompiler *c, const uint8_t *m) { sp_errors++; c->result.status = JANET_COMPILE_ERROR; }
@@ -100,7 +102,8 @@ void sp_ra_deinit_stub(JanetcRegisterAllocator *ra) {}
 /* a free register: never one that holds a live value (the registers of the sub-forms' results, SP_SLOT0..) */
 #define SP_SLOT0 16
 static int sp_is_form_slot(int32_t r) { return r >= SP_SLOT0 && r < SP_SLOT0 + SP_NF; }
-int32_t sp_ra_1_stub(JanetcRegisterAllocator *ra) { int32_t r = nd_i32(); __CPROVER_assume(r >= 0 && r < SP_SLOT0); sp_alloc_calls++; sp_alloc_last = r; return r; }
+static int32_t sp_hint_reg = -1;        /* register of the variable that receives the value (hint): live, never handed out */
+int32_t sp_ra_1_stub(JanetcRegisterAllocator *ra) { int32_t r = nd_i32(); __CPROVER_assume(r >= 0 && r < SP_SLOT0 && r != sp_hint_reg); sp_alloc_calls++; sp_alloc_last = r; return r; }
 /* temporaries: one register per tag, distinct from everything else (the real allocator reserves 0xF0..0xFF; the interpreter models 32 registers) */
 int32_t sp_ra_temp_stub(JanetcRegisterAllocator *ra, JanetcRegisterTemp t) { return 24 + (int32_t) t; }
 void sp_ra_freetemp_stub(JanetcRegisterAllocator *ra, int32_t reg, JanetcRegisterTemp t) {}
@@ -134,6 +137,7 @@ JanetSlot sp_value_stub(JanetFopts opts, Janet x) {
     JanetSlot s;
     if (sp_isconst[f]) s = janetc_cslot(sp_constv[f]);
     else { s.constant.type = JANET_NIL; s.constant.as.u64 = 0; s.index = sp_slot[f]; s.envindex = -1; s.flags = sp_slotflags[f]; }
+    if (sp_spliced[f] && (opts.flags & JANET_FOPTS_ACCEPT_SPLICE)) s.flags |= JANET_SLOT_SPLICED;      /* the form is (splice x), accepted here */
     if (opts.flags & JANET_FOPTS_TAIL) { sp_emit_owned(f, 2, JOP_RETURN); s.flags |= JANET_SLOT_RETURNED; }
     if (opts.flags & JANET_FOPTS_HINT) { janetc_copy(c, opts.hint, s); s = opts.hint; }
     return s;
@@ -251,7 +255,7 @@ static void sp_setup(int outer_flags) {
         sp_k[f] = nd_int(); __CPROVER_assume(sp_k[f] >= 0 && sp_k[f] <= 2);
 #endif
         sp_isconst[f] = nd_int() & 1;
-        sp_slot[f] = SP_SLOT0 + f; sp_slotflags[f] = 0; sp_makes_closure[f] = 0;
+        sp_slot[f] = SP_SLOT0 + f; sp_slotflags[f] = 0; sp_makes_closure[f] = 0; sp_spliced[f] = 0;
         if (sp_isconst[f]) sp_choose_const(f);
         else { sp_constv[f] = sp_nil(); sp_kind[f] = nd_int(); __CPROVER_assume(sp_kind[f] >= K_NIL && sp_kind[f] <= K_OTHER); }
         sp_calls[f] = 0; sp_optflags[f] = 0; sp_seq[f] = -1; sp_in_outer[f] = sp_parent_is_outer[f] = sp_scopeflags[f] = 0; sp_hintindex[f] = 0;
@@ -280,7 +284,10 @@ static JanetFopts sp_opts(void) {
     if (sp_ctx == SP_USED && nd_int()) {
 #endif
         o.flags |= JANET_FOPTS_HINT; o.hint.flags = JANET_SLOT_NAMED | JANET_SLOT_MUTABLE | JANET_SLOTTYPE_ANY;
-        o.hint.index = nd_i32(); __CPROVER_assume(o.hint.index >= 0 && o.hint.index < SP_NREG);
+        o.hint.index = nd_i32(); __CPROVER_assume(o.hint.index >= 0 && o.hint.index < 24);
+        sp_hint_reg = o.hint.index;
+        /* a sub-form whose value lives in the hint's register IS that variable (a temporary never shares a register with a live variable) */
+        for (int f = 1; f < SP_NF; f++) if (sp_slot[f] == o.hint.index) sp_slotflags[f] = JANET_SLOT_NAMED | JANET_SLOT_MUTABLE | JANET_SLOTTYPE_ANY;
     }
     if (nd_int()) o.flags |= JANET_FOPTS_ACCEPT_SPLICE;
     return o;
@@ -581,7 +588,9 @@ void h_def(void) {
         __CPROVER_assert(!shares_value_reg || !(sp_slotflags[2] & JANET_SLOT_MUTABLE), "comp.def: a definition never aliases a variable (a later set must not change it)");
 #endif
         __CPROVER_assert(!shares_hint_reg, "comp.def: the new binding does not live in the register of the variable that receives the form's value");
+#if !SP_VAR
         if (shares_value_reg) REACH("def: aliases the value's register");
+#endif
     }
     if (sp_ctx == SP_USED) __CPROVER_assert(sp_slot_has_value_of(ret, 2), "comp.def: the binding form yields the bound value");
     if (vk == 2) REACH("def: value is a variable");
@@ -664,4 +673,227 @@ void h_set(void) {
     REACH("set: field");
 #endif
     REACH("set returns");
+}
+
+/* ================================================================== quote / splice */
+void h_quote(void) {
+    sp_setup(JANET_SCOPE_FUNCTION);
+    int32_t argn = nd_i32();
+    __CPROVER_assume(argn >= 0 && argn <= 2);
+    Janet argv[2];
+    argv[0].type = (JanetType)(nd_int() & 15); argv[0].as.u64 = nd_u64(); argv[1] = sp_form(2);       /* any datum */
+    JanetFopts opts = sp_opts();
+    JanetSlot ret = janetc_quote(opts, argn, argv);
+    sp_common_post("quote");
+    __CPROVER_assert(sp_ncalls == 0 && janet_v_count(sp_c.buffer) == SP_PRE, "comp.quote: nothing is compiled or emitted: the argument is data");
+    if (argn == 1) {
+        __CPROVER_assert(sp_errors == 0 && (ret.flags & JANET_SLOT_CONSTANT) && ret.constant.type == argv[0].type && ret.constant.as.u64 == argv[0].as.u64, "comp.quote: (quote x) is the constant x itself");
+        REACH("quote: datum");
+    } else {
+        __CPROVER_assert(sp_errors == 1, "comp.quote: quote takes exactly one argument");
+        REACH("quote: arity error");
+    }
+}
+void h_splice(void) {
+    sp_setup(JANET_SCOPE_FUNCTION);
+    int32_t argn = nd_i32();
+    __CPROVER_assume(argn >= 0 && argn <= 2);
+    Janet argv[2]; argv[0] = sp_form(1); argv[1] = sp_form(2);
+    JanetFopts opts = sp_opts();
+    JanetSlot ret = janetc_splice(opts, argn, argv);
+    sp_common_post("splice");
+    if (!(opts.flags & JANET_FOPTS_ACCEPT_SPLICE) || argn != 1) {
+        __CPROVER_assert(sp_errors == 1 && sp_ncalls == 0 && janet_v_count(sp_c.buffer) == SP_PRE, "comp.splice: a splice where no argument list or data constructor accepts it, or with a wrong argument count, is a compile error and emits nothing");
+        if (argn == 1) REACH("splice: not accepted here"); else REACH("splice: arity error");
+        return;
+    }
+    __CPROVER_assert(sp_errors == 0 && sp_calls[1] == 1 && sp_ncalls == 1, "comp.splice: the spliced form is compiled once");
+    __CPROVER_assert((sp_optflags[1] & SP_CTXBITS) == (opts.flags & SP_CTXBITS), "comp.splice: in the context of the splice form");
+    __CPROVER_assert((ret.flags & JANET_SLOT_SPLICED), "comp.splice: the result is marked as spliced (its elements become the arguments)");
+    sp_exec();
+    if (sp_ctx != SP_TAIL) __CPROVER_assert(sp_halt == H_END && SP_RAN(1) && (sp_ctx != SP_USED || sp_slot_has_value_of(ret, 1)), "comp.splice: the form is evaluated and its value is the spliced sequence");
+    REACH("splice: accepted");
+}
+
+/* ================================================================== quasiquote */
+static const uint8_t sp_sym_unquote[] = "unquote", sp_sym_qq[] = "quasiquote", sp_sym_foo[] = "foo";
+/* tables and structs are not exercised: an empty dictionary view */
+int sp_dictview_stub(Janet tab, const JanetKV **data, int32_t *len, int32_t *cap) { *data = (const JanetKV *)0; *len = 0; *cap = 0; return 1; }
+const JanetKV *sp_dictnext_stub(const JanetKV *kvs, int32_t cap, const JanetKV *kv) { return (const JanetKV *)0; }
+int sp_cstrcmp_stub(const uint8_t *str, const char *other) {
+    if (str == sp_sym_unquote) return other[0] == 'u' ? 0 : 1;
+    if (str == sp_sym_qq) return other[0] == 'q' ? 0 : -1;
+    return 1;
+}
+/* slot vectors of the constructors under construction: a pool */
+#define SP_QV 6
+static struct { int32_t cap, cnt; JanetSlot data[4]; } sp_slotpool[SP_QV];
+static int sp_slotpool_next;
+void *sp_grow_qq_stub(void *v, int32_t increment, int32_t itemsize) {
+    if (v == (void *)0 && itemsize == (int32_t) sizeof(JanetSlot) && sp_slotpool_next < SP_QV) { int i = sp_slotpool_next++; sp_slotpool[i].cap = 5; sp_slotpool[i].cnt = 0; return sp_slotpool[i].data; }
+    __CPROVER_assert(0, "harness: the preallocated vectors suffice"); __CPROVER_assume(0); return v;
+}
+int32_t sp_ra_1_seq_stub(JanetcRegisterAllocator *ra) { int32_t r = sp_alloc_calls++; return (sp_hint_reg >= 0 && r >= sp_hint_reg) ? r + 1 : r; }       /* fresh registers 0, 1, 2, ... skipping the live hint register */
+/* constructor events: janetc_pushslots(slots) ; janetc_freeslots(slots) ; janetc_emit_s(makeop, target, 1) */
+#define SP_QE 6
+static int sp_ev_n[SP_QE], sp_ev_op[SP_QE], sp_nev, sp_ev_pushed, sp_ev_seq[SP_QE];
+static JanetSlot sp_ev_elem[SP_QE][3], sp_ev_target[SP_QE];
+int32_t sp_pushslots_stub(JanetCompiler *c, JanetSlot *slots) {
+    int32_t n = janet_v_count(slots);
+    __CPROVER_assert(sp_nev < SP_QE && n <= 3 && !sp_ev_pushed, "harness: event log suffices");
+    __CPROVER_assume(sp_nev < SP_QE && n <= 3);
+    sp_ev_n[sp_nev] = n; sp_ev_seq[sp_nev] = sp_ncalls;
+    for (int i = 0; i < 3; i++) if (i < n) sp_ev_elem[sp_nev][i] = slots[i];
+    sp_ev_pushed = 1;
+    janetc_emit(c, JOP_PUSH);
+    return n;
+}
+void sp_freeslots_stub(JanetCompiler *c, JanetSlot *slots) {}
+int32_t sp_emit_s_stub(JanetCompiler *c, uint8_t op, JanetSlot s, int wr) {
+    __CPROVER_assert(sp_ev_pushed && wr == 1 && sp_nev < SP_QE, "comp.quasiquote: a constructor instruction follows the push of its elements and writes its target");
+    __CPROVER_assume(sp_nev < SP_QE);
+    sp_ev_op[sp_nev] = op; sp_ev_target[sp_nev] = s; sp_nev++; sp_ev_pushed = 0;
+    int32_t label = janet_v_count(c->buffer);
+    janetc_emit(c, (uint32_t) op | ((uint32_t)(s.index & 0xFF) << 8));
+    return label;
+}
+static struct { JanetTupleHead head; Janet data[3]; } sp_qtop, sp_qel[3], sp_qin[3], sp_qun;
+static JanetArray sp_qarr;
+static Janet sp_symv(const uint8_t *s) { Janet x; x.type = JANET_SYMBOL; x.as.u64 = 0; x.as.pointer = (void *) s; return x; }
+static Janet sp_tupv(void *data) { Janet x; x.type = JANET_TUPLE; x.as.u64 = 0; x.as.pointer = data; return x; }
+static int sp_same(Janet a, Janet b) { return a.type == b.type && a.as.u64 == b.as.u64; }
+static int sp_is_const(JanetSlot s, Janet x) { return (s.flags & JANET_SLOT_CONSTANT) && sp_same(s.constant, x); }
+/* the event that produced the (non-constant) slot s */
+static int sp_event_of(JanetSlot s) { int r = -1; for (int e = 0; e < SP_QE; e++) if (e < sp_nev && !(s.flags & JANET_SLOT_CONSTANT) && sp_ev_target[e].index == s.index) r = e; return r; }
+/* element kinds */
+#define QK_ATOM 0      /* a datum */
+#define QK_UNQ 1       /* (unquote F) */
+#define QK_TUP 2       /* (foo a): nested data */
+#define QK_QQ 3        /* (quasiquote (unquote a)): one level deeper, the unquote stays data */
+#define QK_UNQ1 4      /* (unquote): no argument, plain data */
+#ifndef SP_QQ_TEMPLATE
+#define SP_QQ_TEMPLATE 0
+#endif
+#if SP_QQ_TEMPLATE == 0
+static const int sp_qq_template[3] = { QK_ATOM, QK_UNQ, QK_QQ };           /* ~(a ,f2 (quasiquote (unquote a3))) */
+#elif SP_QQ_TEMPLATE == 1
+static const int sp_qq_template[3] = { QK_TUP, QK_UNQ1, QK_UNQ };          /* ~((foo a1) (unquote) ,f3) */
+#else
+static const int sp_qq_template[3] = { QK_UNQ, QK_UNQ, QK_ATOM };          /* ~(,f1 ,f2 a3) */
+#endif
+#if SP_QQ_TEMPLATE == 0
+#define QR0(m) REACH(m)
+#else
+#define QR0(m) ((void)0)
+#endif
+#if SP_QQ_TEMPLATE == 1
+#define QR1(m) REACH(m)
+#else
+#define QR1(m) ((void)0)
+#endif
+#if SP_QQ_TEMPLATE == 2
+#define QR2(m) REACH(m)
+#else
+#define QR2(m) ((void)0)
+#endif
+#if SP_QQ_TEMPLATE != 1
+#define QR02(m) REACH(m)
+#else
+#define QR02(m) ((void)0)
+#endif
+void h_quasiquote(void) {
+    sp_setup(JANET_SCOPE_FUNCTION);
+    int L = nd_int();
+    __CPROVER_assume(L >= 0 && L <= 3);
+    int kind[3];
+    Janet *top = (Janet *) sp_qtop.data;
+    for (int i = 0; i < 3; i++) {
+        kind[i] = sp_qq_template[i];        /* concrete template (per unit): symbolic element types make symbolic execution of the recursion explode */
+        Janet *el = (Janet *) sp_qel[i].data, *in = (Janet *) sp_qin[i].data;
+        sp_qel[i].head.gc.flags = 0; sp_qin[i].head.gc.flags = 0;
+        sp_qel[i].head.length = kind[i] == QK_UNQ1 ? 1 : 2; sp_qin[i].head.length = 2;
+        if (kind[i] == QK_ATOM) top[i] = sp_form(i + 1);
+        else {
+            top[i] = sp_tupv(el);
+            el[0] = sp_symv(kind[i] == QK_TUP ? sp_sym_foo : kind[i] == QK_QQ ? sp_sym_qq : sp_sym_unquote);
+            el[1] = kind[i] == QK_QQ ? sp_tupv(in) : sp_form(i + 1);
+            in[0] = sp_symv(sp_sym_unquote); in[1] = sp_form(i + 1);
+        }
+        sp_spliced[i + 1] = nd_int() & 1;
+    }
+    sp_qtop.head.length = L; sp_qtop.head.gc.flags = nd_int() ? JANET_TUPLE_FLAG_BRACKETCTOR : 0;
+    int is_array = nd_int() & 1;
+    sp_qarr.count = L; sp_qarr.capacity = 3; sp_qarr.data = top;
+    /* x: the tuple / array, or a bare datum, or a bare (unquote F); built and compiled per shape so that the template stays concrete */
+    int shape = nd_int();
+    __CPROVER_assume(shape >= 0 && shape <= 2);
+    sp_slotpool_next = 0; sp_nev = 0; sp_ev_pushed = 0;
+    JanetFopts opts = sp_opts();
+    int depth = nd_int();
+    __CPROVER_assume((depth >= 0 && depth <= 4) || depth == JANET_RECURSION_GUARD);
+    JanetSlot ret;
+    Janet x;
+    if (shape == 0 && is_array) { x.type = JANET_ARRAY; x.as.u64 = 0; x.as.pointer = &sp_qarr; ret = quasiquote(opts, x, depth, 0); }
+    else if (shape == 0) { x = sp_tupv(top); ret = quasiquote(opts, x, depth, 0); }
+    else if (shape == 1) { x = sp_form(1); if (depth == JANET_RECURSION_GUARD) ret = janetc_quasiquote(opts, 1, &x); else ret = quasiquote(opts, x, depth, 0); }
+    else { Janet *el = (Janet *) sp_qun.data; sp_qun.head.length = 2; sp_qun.head.gc.flags = 0; el[0] = sp_symv(sp_sym_unquote); el[1] = sp_form(1); x = sp_tupv(el); ret = quasiquote(opts, x, depth, 0); }
+    sp_common_post("quasiquote");
+    /* nesting depth of x */
+    int need = 1;
+    if (shape == 0) { need = 2; for (int i = 0; i < 3; i++) if (i < L) { int d = kind[i] == QK_ATOM || kind[i] == QK_UNQ ? 2 : kind[i] == QK_QQ ? 4 : 3; if (d > need) need = d; } }
+    if (depth < need) {
+        __CPROVER_assert(sp_errors >= 1, "comp.quasiquote: nesting deeper than the guard allows is a compile error (no unbounded recursion)");
+        REACH("quasiquote: too deeply nested");
+        return;
+    }
+    __CPROVER_assert(sp_errors == 0, "comp.quasiquote: a template within the depth guard compiles without error");
+    if (shape == 1) {
+        __CPROVER_assert(sp_is_const(ret, x) && sp_ncalls == 0 && sp_nev == 0 && janet_v_count(sp_c.buffer) == SP_PRE, "comp.quasiquote: a datum is itself; nothing is compiled or emitted");
+        REACH("quasiquote: bare datum");
+        return;
+    }
+    if (shape == 2) {
+        __CPROVER_assert(sp_calls[1] == 1 && sp_ncalls == 1 && sp_nev == 0, "comp.quasiquote: (quasiquote (unquote f)) evaluates f and builds nothing");
+        __CPROVER_assert((sp_optflags[1] & SP_CTXBITS) == 0 && (sp_optflags[1] & JANET_FOPTS_ACCEPT_SPLICE), "comp.quasiquote: an unquoted form is compiled for its value; a splice is accepted");
+        __CPROVER_assert(sp_isconst[1] ? sp_is_const(ret, sp_constv[1]) : ret.index == sp_slot[1], "comp.quasiquote: the result is the value of f");
+        REACH("quasiquote: bare unquote");
+        return;
+    }
+    /* the template is a tuple / array of L elements */
+    __CPROVER_assert(sp_nev >= 1, "comp.quasiquote: the sequence is constructed at run time");
+    int top_e = sp_nev - 1;
+    __CPROVER_assert(sp_ev_op[top_e] == (is_array ? JOP_MAKE_ARRAY : (sp_qtop.head.gc.flags & JANET_TUPLE_FLAG_BRACKETCTOR) ? JOP_MAKE_BRACKET_TUPLE : JOP_MAKE_TUPLE) && sp_ev_n[top_e] == L,
+                     "comp.quasiquote: the last constructor builds the same kind of sequence (array, bracketed or plain tuple) with the same number of elements");
+    __CPROVER_assert(ret.index == sp_ev_target[top_e].index && !(ret.flags & JANET_SLOT_CONSTANT), "comp.quasiquote: the result is the constructed sequence");
+    if (opts.flags & JANET_FOPTS_HINT) __CPROVER_assert(ret.index == opts.hint.index, "comp.quasiquote: delivered into the hint slot");
+    int i = nd_int();
+    __CPROVER_assume(i >= 0 && i < L);
+    JanetSlot e = sp_ev_elem[top_e][i];
+    int f = i + 1;
+    if (kind[i] == QK_ATOM) {
+        __CPROVER_assert(sp_is_const(e, top[i]) && sp_calls[f] == 0, "comp.quasiquote: a datum element is itself, not evaluated");
+        QR02("quasiquote: datum element");
+    } else if (kind[i] == QK_UNQ) {
+        __CPROVER_assert(sp_calls[f] == 1, "comp.quasiquote: an unquoted element is compiled once");
+        __CPROVER_assert((sp_optflags[f] & SP_CTXBITS) == 0 && (sp_optflags[f] & JANET_FOPTS_ACCEPT_SPLICE), "comp.quasiquote: an unquoted form is compiled for its value; a splice is accepted");
+        __CPROVER_assert(sp_isconst[f] ? sp_is_const(e, sp_constv[f]) : (!(e.flags & JANET_SLOT_CONSTANT) && e.index == sp_slot[f]), "comp.quasiquote: the element is the value of the unquoted form");
+        __CPROVER_assert(!!(e.flags & JANET_SLOT_SPLICED) == !!sp_spliced[f], "comp.quasiquote: an unquote-splice stays a splice, nothing else is spliced");
+        int j = nd_int();
+        if (j > i && j < L && kind[j] == QK_UNQ) { __CPROVER_assert(sp_seq[f] < sp_seq[j + 1], "comp.quasiquote: unquoted forms are evaluated left to right"); QR2("quasiquote: two unquotes"); }
+        REACH("quasiquote: unquoted element");
+    } else {
+        int ev = sp_event_of(e);
+        __CPROVER_assert(sp_calls[f] == 0, "comp.quasiquote: nothing inside nested data, an argument-less unquote or a deeper quasiquote level is evaluated");
+        __CPROVER_assert(ev >= 0 && ev < top_e && sp_ev_op[ev] == JOP_MAKE_TUPLE && sp_ev_n[ev] == sp_qel[i].head.length && sp_is_const(sp_ev_elem[ev][0], ((Janet *) sp_qel[i].data)[0]) && !(e.flags & JANET_SLOT_SPLICED),
+                         "comp.quasiquote: a nested tuple is rebuilt as a tuple with the same head symbol");
+        if (kind[i] == QK_TUP) { __CPROVER_assert(sp_is_const(sp_ev_elem[ev][1], sp_form(f)), "comp.quasiquote: nested data is kept"); QR1("quasiquote: nested tuple"); }
+        else if (kind[i] == QK_UNQ1) QR1("quasiquote: unquote without argument is data");
+        else {
+            int ev2 = sp_event_of(sp_ev_elem[ev][1]);
+            __CPROVER_assert(ev2 >= 0 && ev2 < ev && sp_ev_op[ev2] == JOP_MAKE_TUPLE && sp_ev_n[ev2] == 2 && sp_is_const(sp_ev_elem[ev2][0], sp_symv(sp_sym_unquote)) && sp_is_const(sp_ev_elem[ev2][1], sp_form(f)),
+                             "comp.quasiquote: an unquote under a nested quasiquote belongs to the inner level and stays data");
+            QR0("quasiquote: nested quasiquote level");
+        }
+    }
+    REACH("quasiquote: sequence");
 }
